@@ -27,6 +27,10 @@ class Budget(Exception):
     pass
 
 
+class StopExploration(Exception):
+    """the run has seen all it needs (vacuity canary reached a function exit)"""
+
+
 class Ob:
     """One obligation instance result."""
     __slots__ = ("name", "status", "detail", "model", "ms", "backend")
@@ -293,6 +297,8 @@ def explore(run, results, timeout_ms=10000, max_paths=200000, deadline=None, pre
             run(p)
         except (Infeasible, PathEnd):
             pass
+        except StopExploration:
+            return n
         work.extend(p.alts)
         if n >= max_paths:
             raise Budget(f"more than {max_paths} paths")
